@@ -3,6 +3,7 @@
 //! usage: harness <property> [--seed N] [--tier quick|thorough] [--shard i/n] [--out FILE] [extra…]
 mod common;
 mod c13;
+mod c08;
 mod c14;
 mod c12;
 mod c03;
@@ -36,6 +37,7 @@ pub fn eval_request(req: &str) -> String {
     let r = guarded(std::panic::AssertUnwindSafe(|| {
         None // one line per property module
             .or_else(|| c13::eval(op, a))
+            .or_else(|| c08::eval(op, a))
             .or_else(|| c14::eval(op, a))
             .or_else(|| c12::eval(op, a))
             .or_else(|| c03::eval(op, a))
@@ -109,6 +111,7 @@ fn main() {
             }
         }
         "C13" => c13::gen(&mut ctx),
+        "C08" => c08::gen(&mut ctx),
         "C14" => c14::gen(&mut ctx),
         "C12" => c12::gen(&mut ctx),
         "C03" => c03::gen(&mut ctx),
